@@ -322,34 +322,63 @@ Definition add_pixel (out : plane) (spl x y v : Z) : res plane :=
   let* m := pget out (x + y * spl) in
   pset out (x + y * spl) (clamp 0 255 (v + m)).
 
+(* the value added to the sample at offset (xo, yo) of the block: the `clipped_idct` of each variant *)
+Inductive idct_vals :=
+| VZero
+| VConst (v : Z)
+| VByX (r : list f32)                 (* Horiz: depends on the column only *)
+| VByY (r : list f32)                 (* Vert: depends on the row only *)
+| VFull (second : list (list f32)).   (* second[x][y] *)
+
+Definition idct_values (d : dct_block) : idct_vals :=
+  match d with
+  | DctZero => VZero
+  | DctDc dc => let f := f_of_Z dc in VConst (round_clip (fmul f f_half) f)
+  | DctHoriz row => VByX (idct_1d (map f_of_Z row))
+  | DctVert col => VByY (idct_1d (map f_of_Z col))
+  | DctFull rows =>
+      let first := map (fun row => idct_1d (map f_of_Z row)) rows in
+      VFull (map idct_1d (transpose8 first))
+  end.
+
+Definition idct_value_at (v : idct_vals) (xo yo : Z) : Z :=
+  match v with
+  | VZero => 0
+  | VConst c => c
+  | VByX r => let idct := nth (Z.to_nat xo) r f_zero in round_clip (fmul idct basis00) idct
+  | VByY r => let idct := nth (Z.to_nat yo) r f_zero in round_clip (fmul idct basis00) idct
+  | VFull second => let idct := nth (Z.to_nat yo) (nth (Z.to_nat xo) second []) f_zero in round_clip idct idct
+  end.
+
+(* the loops of each variant (the Full variant iterates columns outermost) *)
 Definition idct_block (d : dct_block) (out : plane) (spl x_base y_base xs ys : Z) : res plane :=
   match d with
   | DctZero => Ok out
-  | DctDc dc =>
-      let f := f_of_Z dc in
-      let v := round_clip (fmul f f_half) f in
-      forZ ys (fun yo o => forZ xs (fun xo o => add_pixel o spl (x_base * 8 + xo) (y_base * 8 + yo) v) o) out
-  | DctHoriz row =>
-      let r := idct_1d (map f_of_Z row) in
-      forZ ys (fun yo o =>
-        forZ xs (fun xo o =>
-          let idct := nth (Z.to_nat xo) r f_zero in
-          add_pixel o spl (x_base * 8 + xo) (y_base * 8 + yo) (round_clip (fmul idct basis00) idct)) o) out
-  | DctVert col =>
-      let r := idct_1d (map f_of_Z col) in
-      forZ ys (fun yo o =>
-        let idct := nth (Z.to_nat yo) r f_zero in
-        forZ xs (fun xo o =>
-          add_pixel o spl (x_base * 8 + xo) (y_base * 8 + yo) (round_clip (fmul idct basis00) idct)) o) out
-  | DctFull rows =>
-      let first := map (fun row => idct_1d (map f_of_Z row)) rows in
-      let second := map idct_1d (transpose8 first) in
+  | DctFull _ =>
+      let v := idct_values d in
       forZ xs (fun xo o =>
-        let idct_row := nth (Z.to_nat xo) second [] in
-        forZ ys (fun yo o =>
-          let idct := nth (Z.to_nat yo) idct_row f_zero in
-          add_pixel o spl (x_base * 8 + xo) (y_base * 8 + yo) (round_clip idct idct)) o) out
+        forZ ys (fun yo o => add_pixel o spl (x_base * 8 + xo) (y_base * 8 + yo) (idct_value_at v xo yo)) o) out
+  | _ =>
+      let v := idct_values d in
+      forZ ys (fun yo o =>
+        forZ xs (fun xo o => add_pixel o spl (x_base * 8 + xo) (y_base * 8 + yo) (idct_value_at v xo yo)) o) out
   end.
+
+(* classification of a coefficient matrix m[y][x] as inverse_rle performs it *)
+Definition classify (m : list (list Z)) : dct_block :=
+  let nz x y := negb (mat_get m x y =? 0) in
+  let coords := flat_map (fun y => map (fun x => (Z.of_nat x, Z.of_nat y)) (seq 0 8)) (seq 0 8) in
+  let is_horiz := forallb (fun c : Z * Z => let '(x, y) := c in negb (nz x y && (0 <? y))) coords in
+  let is_vert := forallb (fun c : Z * Z => let '(x, y) := c in negb (nz x y && (0 <? x))) coords in
+  if is_horiz && is_vert then (if mat_get m 0 0 =? 0 then DctZero else DctDc (mat_get m 0 0))
+  else if is_horiz then DctHoriz (nth 0 m [])
+  else if is_vert then DctVert (map (fun row => nth 0 row 0) m)
+  else DctFull m.
+
+(* all 64 values of a block, row-major [y][x] *)
+Definition idct_all_values (m : list (list Z)) : list Z :=
+  let v := idct_values (classify m) in
+  flat_map (fun y => map (fun x => idct_value_at v (Z.of_nat x) (Z.of_nat y)) (seq 0 8)) (seq 0 8).
 
 (* idct_channel(block_levels, output, blk_per_line, output_samples_per_line) *)
 Definition idct_channel (levels : list dct_block) (out : plane) (blk_per_line spl : Z) : res plane :=
